@@ -213,12 +213,17 @@ pub fn history_ops() -> Vec<crate::history::Op> {
         for n in ["sentence", "term", "atom-ending-in-copula-head", "implication-term"] {
             let x = inputs.iter().find(|(m, _)| m == n).map(|(_, x)| x.clone()).unwrap_or_default();
             let f6 = f;
-            v.push(Op::new(format!("enum-parse on a copied format[{}] {n}: {x:?}", f.name), move || {
+            let x1 = x.clone();
+            v.push(Op::new(format!("enum-parse on a format copied into a local[{}] {n}: {x:?}", f.name), move || {
                 let own = f6.e.clone();
+                let r = quiet_catch(AssertUnwindSafe(|| own.parse::<Narsese>(&x1).map(|n| show_cv(&cv_of(&n))).map_err(|_| ())));
+                format!("{r:?}")
+            }));
+            let x2 = x.clone();
+            v.push(Op::new(format!("enum-parse on a format copied into a box[{}] {n}: {x:?}", f.name), move || {
                 let boxed = Box::new(f6.e.clone());
-                let r1 = quiet_catch(AssertUnwindSafe(|| own.parse::<Narsese>(&x).map(|n| show_cv(&cv_of(&n))).map_err(|_| ())));
-                let r2 = quiet_catch(AssertUnwindSafe(|| boxed.parse::<Narsese>(&x).map(|n| show_cv(&cv_of(&n))).map_err(|_| ())));
-                format!("{r1:?} / {r2:?}")
+                let r = quiet_catch(AssertUnwindSafe(|| boxed.parse::<Narsese>(&x2).map(|n| show_cv(&cv_of(&n))).map_err(|_| ())));
+                format!("{r:?}")
             }));
         }
         // a format instance of the caller's own, created and dropped around one parse
